@@ -100,6 +100,16 @@ def check(ctx):
     ifs = [n for n in walk_no_nested(dd_) if isinstance(n, ast.If) and "isinstance(parent, Projection)" in unparse(n.test)]
     ok = len(ifs) == 1 and "self.subset is not None" in unparse(ifs[0].test) and "additional_columns=self.subset" in unparse(ifs[0])
     ctx.ob("DOM.dedup-projection", dd_, "Projection is pushed below DropDuplicates only if subset is given (and the subset columns are kept)", ok, "" if ok else "without a subset rows are compared on ALL columns: projecting first de-duplicates on the projected columns only")
+    # ---------------- sort_values with a list of directions: the partition ORDER follows the first key's direction
+    sv = ctx.model.module("dask/dataframe/dask_expr/_shuffle.py")
+    da_ = sv.func("SortValues._divisions_ascending")
+    ok = bool(find("divisions_ascending = divisions_ascending[0]", da_)) and any(eqv(r.value, "divisions_ascending") for r in returns(da_))
+    ctx.ob("ALG.sort.partition-direction", da_, "_divisions_ascending: for a list, ascending[0] (the leading sort key decides how partitions are laid out)", ok, "" if ok else "ascending=[True, False] lays the partitions out in descending order of the first key while each partition is sorted ascending: the global order is wrong")
+    # ---------------- staged task shuffle: every stage splits with the number of INPUT partitions of the whole shuffle
+    tsl = sv.func("TaskShuffle._layer")
+    sg = [t for t in ast.walk(tsl) if isinstance(t, ast.Tuple) and t.elts and eqv(t.elts[0], "self._shuffle_group") and any(eqv(a, "stage") for a in t.elts)]
+    ok = len(sg) == 1 and [unparse(a) for a in sg[0].elts[3:]] == ["self.partitioning_index", "stage", "nsplits", "npartitions_input", "self.ignore_index", "npartitions"]
+    ctx.ob("ARG.task-shuffle.stage-base", tsl, "the staged shuffle_group task receives npartitions_input (the base of the digit decomposition), not the number of padded stage inputs", ok, "" if ok else "with a partition increase and an input count that is no power of nsplits rows are routed to stage outputs that do not exist: rows are silently dropped")
 
 
 VARIANTS = [
